@@ -89,4 +89,60 @@ def recog (base : Int) (s0 : List Nat) : Option Parsed :=
 /-- membership -/
 def accepts (base : Int) (s : List Nat) : Bool := (recog base s).isSome
 
+/-! ## The same language as an inductive grammar (the way the manual would state it)
+
+    string ::= space* body | space* '-' body            (`Lang`)
+    body   ::= mant | mant marker junk (mantissa zero) | mant marker expo-junk     (`Body`)
+    mant   ::= text derivable by `Mant` that begins with a digit, or with '.' and a digit (`First`)
+    Mant   ::= empty | space Mant | D Mant | '.' Mant-without-point
+    expo-junk ::= ('+' | '-')? X+ junk, junk not beginning with X  (`Expo`);  no marker anywhere after the marker -/
+
+/-- mantissa text: digits of base `b`, white space anywhere, at most one point.  `Mant b t ds pt`: the text `t`
+    spells the digits `ds`; `pt` = number of digits after the point, if there is one -/
+inductive Mant (b : Nat) : List Nat → List Nat → Option Nat → Prop
+  | nil : Mant b [] [] none
+  | space {c t ds pt} : Radix.isSpace c = true → Mant b t ds pt → Mant b (c :: t) ds pt
+  | digit {c t ds pt} : dv b c < b → Mant b t ds pt → Mant b (c :: t) (dv b c :: ds) pt
+  | point {t ds} : Mant b t ds none → Mant b (46 :: t) ds (some ds.length)
+
+/-- the mantissa begins with a digit, or with a point immediately followed by a digit -/
+def First (b : Nat) (m : List Nat) : Prop :=
+  (∃ c t, m = c :: t ∧ dv b c < b) ∨ (∃ d t, m = 46 :: d :: t ∧ dv b d < b)
+
+/-- no exponent marker in the text -/
+def NoMarker (b : Nat) (l : List Nat) : Prop := ∀ x ∈ l, isMarker b x = false
+
+/-- exponent text: optional sign, a non-empty run of digits of base `eb`, then anything that does not begin with
+    such a digit (ignored) -/
+inductive Expo (b eb : Nat) : List Nat → Int → Prop
+  | unsigned {run tail} : run ≠ [] → (∀ c ∈ run, dv b c < eb) → (∀ c, tail.head? = some c → ¬ dv b c < eb) →
+      Expo b eb (run ++ tail) ((Radix.ofDigits eb (run.map (dv b)) : Nat) : Int)
+  | plus {run tail} : run ≠ [] → (∀ c ∈ run, dv b c < eb) → (∀ c, tail.head? = some c → ¬ dv b c < eb) →
+      Expo b eb (43 :: (run ++ tail)) ((Radix.ofDigits eb (run.map (dv b)) : Nat) : Int)
+  | minus {run tail} : run ≠ [] → (∀ c ∈ run, dv b c < eb) → (∀ c, tail.head? = some c → ¬ dv b c < eb) →
+      Expo b eb (45 :: (run ++ tail)) (-((Radix.ofDigits eb (run.map (dv b)) : Nat) : Int))
+
+/-- what follows white space and sign -/
+inductive Body (neg : Bool) (b eb : Nat) : List Nat → Parsed → Prop
+  /-- `M` -/
+  | plain {m ds pt} : First b m → Mant b m ds pt → Body neg b eb m ⟨neg, b, ds, pt.getD 0, 0⟩
+  /-- `M@…` with a zero mantissa: what follows the marker is not read (but must not contain a marker) -/
+  | zero {m ds pt k junk} : First b m → Mant b m ds pt → Radix.ofDigits b ds = 0 → isMarker b k = true →
+      NoMarker b junk → Body neg b eb (m ++ k :: junk) ⟨neg, b, ds, pt.getD 0, 0⟩
+  /-- `M@N…` -/
+  | expo {m ds pt k e x} : First b m → Mant b m ds pt → Radix.ofDigits b ds ≠ 0 → isMarker b k = true →
+      NoMarker b e → Expo b eb e x → Body neg b eb (m ++ k :: e) ⟨neg, b, ds, pt.getD 0, x⟩
+
+/-- base of the digits: |base|, 10 for 0 -/
+def digitBase (base : Int) : Nat := if base = 0 then 10 else base.natAbs
+/-- base of the exponent: the base itself if positive, else decimal -/
+def expoBase (base : Int) : Nat := if base ≤ 0 then 10 else digitBase base
+
+/-- **the language of mpf_set_str (base)**: `Lang base s p` — the C string `s` (no NUL) is accepted and denotes `p` -/
+inductive Lang (base : Int) : List Nat → Parsed → Prop
+  | pos {ws r p} : 2 ≤ digitBase base → digitBase base ≤ 62 → (∀ x ∈ ws, Radix.isSpace x = true) →
+      Body false (digitBase base) (expoBase base) r p → Lang base (ws ++ r) p
+  | neg {ws r p} : 2 ≤ digitBase base → digitBase base ≤ 62 → (∀ x ∈ ws, Radix.isSpace x = true) →
+      Body true (digitBase base) (expoBase base) r p → Lang base (ws ++ 45 :: r) p
+
 end Mpir.MpfParse
